@@ -41,6 +41,9 @@ type Net struct {
 	dials    map[string]int64
 	// DialDelay is slept before a dial completes.
 	DialDelay time.Duration
+	// WriteDelay, when > 0, is slept by every client-side Write before the bytes are handed over (a
+	// send buffer that is slow to drain): callers of a shared connection then queue behind the writer.
+	WriteDelay time.Duration
 	// down lists owners whose network is gone (crash emulation): existing
 	// connections go silent, new dials are refused.
 	down map[string]bool
@@ -342,6 +345,11 @@ func (c *Conn) Write(b []byte) (int, error) {
 	c.closeMu.Unlock()
 	if closed {
 		return 0, &net.OpError{Op: "write", Net: "tcp", Err: net.ErrClosed}
+	}
+	if c.Client {
+		if d := c.net.WriteDelay; d > 0 {
+			time.Sleep(d)
+		}
 	}
 	h := c.out
 	h.mu.Lock()
